@@ -110,13 +110,103 @@ def c09_concurrent_double_submit(policy):
         r.close()
 
 
-def explore_scenario(fn, max_preempt, max_runs=4000):
-    """-> list of (trace, schedule) for every schedule within the bound (distinct observation sequences only)"""
+CFG2 = {"node": {"idle": 30, "dwa": 4, "cer": 4, "cea": 4, "wakeup": 1, "retx": 4},
+        "peers": [peer_cfg("p1"), peer_cfg("p2")], "apps": [app_cfg("a1", 4, peers=["p1", "p2"], handler="answer")]}
+
+
+def _setup2():
+    r = nt.Runner(CFG2, seed=1)
+    r.do({"a": "start"})
+    cs = []
+    for host in ("p1.r1", "p2.r1"):
+        st = r.do({"a": "connect"})
+        c = st["out"][0]["c"]
+        r.do({"a": "feed", "c": c, "ms": [nt.M("CE", True, 1, 1, oh=host, auth=[4])]})
+        cs.append(c)
+    return r, cs
+
+
+def _stopper(w, force, wait):
+    def run():
+        try:
+            w.node.stop(wait_timeout=wait, force=force)
+            res = "ok"
+        except simrt.SimKill:
+            raise
+        except BaseException as e:
+            res = type(e).__name__
+        w.s.emit("stop_done", r=res, listen=sum(1 for sk in w.s.net.sockets if sk.listening and not sk.closed),
+                 nodeThreads=sum(1 for t in w.s.threads if t.is_alive() and getattr(t, "role", ("",))[0] in ("io", "stats")))
+    return run
+
+
+def c18_stop_while_peer_closes(policy):
+    """Node.stop() is called while the I/O loop is about to remove a connection whose peer has just closed:
+    scheduling points at every source line of Node.stop."""
+    from .world import role_policy
+    r, cs = _setup2()
+    w = r.w
+    try:
+        code = w.ns.node.Node.stop.__code__
+        w.s.tracing = False
+        act = {"a": "stop", "force": False, "wait": 3, "also": {"a": "peer_close", "c": cs[0]}}
+        r._mark = len(w.s.obs)
+        w.s.tracefn = explore.make_line_tracer(w.s, {code: "stop"}, call_boundaries=False)
+        w.s.emit("peer_close", c=cs[0])
+        r.vcs[cs[0]].sock.remote_close()
+        w.spawn(_stopper(w, False, 3), name="stopper", role="stop")
+        w.s.tracing = True
+        w.s.policy = policy
+        w.s.run()
+        w.s.tracing = False
+        w.s.policy = role_policy
+        w.s.run()
+        r.steps.append({"act": act, "out": r._collect(), "snap": w.snap()})
+        for _ in range(14):
+            r.do({"a": "tick"})
+        return {"steps": r.steps, "exits": [(n, e) for n, e, _ in w.s.exits], "params": nt.model_params(r.full_cfg, max_conn=6)}
+    finally:
+        r.close()
+
+
+def c18_dpa_with_output_pending(policy):
+    """While stopping, a peer delivers a watchdog request and the DPA in one network read; reader, writer and
+    I/O loop run under every schedule (scheduling points: every visible operation of the runtime)."""
+    from .world import role_policy
+    r, cs = _setup2()
+    w = r.w
+    try:
+        r.do({"a": "stop", "force": False, "wait": 8})
+        c = cs[0]
+        vc = r.vcs[c]
+        dpr = [m for m in vc.tx if m["cmd"] == "DP" and m["req"]][-1]
+        act = {"a": "feed", "c": c, "ms": [nt.M("DW", True, 5, 5, oh="p1.r1"), nt.M("DP", False, dpr["hbh"], dpr["e2e"], oh="p1.r1", rc=2001)]}
+        r._mark = len(w.s.obs)
+        for m in act["ms"]:
+            w.s.emit("fed", c=c, m=None)
+        vc.sock.feed(b"".join(nt.concrete(m) for m in act["ms"]))
+        w.s.fine = True
+        w.s.policy = policy
+        w.s.run()
+        w.s.fine = False
+        w.s.policy = role_policy
+        w.s.run()
+        r.steps.append({"act": act, "out": r._collect(), "snap": w.snap()})
+        for _ in range(3):
+            r.do({"a": "tick"})
+        return {"steps": r.steps, "exits": [(n, e) for n, e, _ in w.s.exits], "params": nt.model_params(r.full_cfg, max_conn=6)}
+    finally:
+        r.close()
+
+
+def explore_scenario(fn, max_preempt, max_runs=4000, whole=False):
+    """-> list of (trace, schedule) for every schedule within the bound (distinct observation sequences only;
+    of the last step, or of the whole trace)"""
     seen = {}
     n = 0
     for res, pol in explore.explore(fn, max_preempt, max_runs=max_runs):
         n += 1
-        key = json.dumps(res["steps"][-1]["out"], sort_keys=True) + json.dumps(res["exits"])
+        key = json.dumps([st["out"] for st in res["steps"]] if whole else res["steps"][-1]["out"], sort_keys=True) + json.dumps(res["exits"])
         if key not in seen:
             seen[key] = (res, [x[1] for x in pol.records])
     return list(seen.values()), n
